@@ -59,6 +59,9 @@ class PointArraySort(Sort):
             off = 8 * rng.randint(1, n_parent // 8)
         ln = rng.randint(0, n_parent - off)
         vals = [gen_float(rng, self.finite) for _ in range(2 * n_parent)]
+        coord_dtype = rng.choice([None] * 6 + ['int32', 'int16', 'int64', 'float32'])
+        if coord_dtype and coord_dtype.startswith('int'):
+            vals = [float(rng.choice([0, 1, -1, 2, 3, -2, 4])).hex() for _ in vals]
         if self.validity and n_parent:
             nbytes = (n_parent + 7) // 8
             vb = {'k': 'array', 'dtype': 'uint8', 'shape': [nbytes], 'data': [rng.randint(0, 255) | (0 if rng.random() < 0.5 else 255) for _ in range(nbytes)]}
@@ -66,6 +69,9 @@ class PointArraySort(Sort):
             vb = {'k': 'none'}
         rep = {'k': 'record', 'cls': 'FixedArray', 'fields': {'offset': {'k': 'int', 'v': off}, 'length': {'k': 'int', 'v': ln},
                                                              'bufs': {'k': 'tuple', 'items': [vb, {'k': 'array', 'dtype': 'float64', 'shape': [len(vals)], 'data': vals}]}}}
+        fl = [float.fromhex(x) for x in vals if x not in ('nan', 'inf', '-inf')]
+        if coord_dtype and len(fl) == len(vals) and (coord_dtype == 'float32' or all(v_.is_integer() and abs(v_) < 2 ** 14 for v_ in fl)):
+            rep['fields']['coord_dtype'] = {'k': 'other', 'v': coord_dtype}
         return {'k': 'record', 'cls': 'PointArray', 'fields': {'data': rep}}
 
 
